@@ -255,21 +255,30 @@ func (route *GrafanaNet) run(in chan []byte) {
 	var metrics []*schema.MetricData
 	buffer := new(bytes.Buffer)
 
+	// add takes one line into the current batch and flushes the batch when it is full
+	add := func(buf []byte) bool {
+		route.numBuffered.Dec(1)
+		md, err := parseMetric(buf, route.schemas, route.Cfg.OrgID)
+		if err != nil {
+			log.Errorf("RouteGrafanaNet: parseMetric failed: %s. skipping metric", err)
+			return false
+		}
+		md.SetId()
+		metrics = append(metrics, md)
+
+		if len(metrics) == route.Cfg.FlushMaxNum {
+			metrics = route.retryFlush(metrics, buffer)
+			return true
+		}
+		return false
+	}
+
 	timer := time.NewTimer(route.Cfg.FlushMaxWait)
+	defer route.wg.Done()
 	for {
 		select {
 		case buf := <-in:
-			route.numBuffered.Dec(1)
-			md, err := parseMetric(buf, route.schemas, route.Cfg.OrgID)
-			if err != nil {
-				log.Errorf("RouteGrafanaNet: parseMetric failed: %s. skipping metric", err)
-				continue
-			}
-			md.SetId()
-			metrics = append(metrics, md)
-
-			if len(metrics) == route.Cfg.FlushMaxNum {
-				metrics = route.retryFlush(metrics, buffer)
+			if add(buf) {
 				// reset our timer
 				if !timer.Stop() {
 					<-timer.C
@@ -280,11 +289,18 @@ func (route *GrafanaNet) run(in chan []byte) {
 			timer.Reset(route.Cfg.FlushMaxWait)
 			metrics = route.retryFlush(metrics, buffer)
 		case <-route.shutdown:
-			metrics = route.retryFlush(metrics, buffer)
-			return
+			// take in what is still queued for this shard, then flush everything
+			for {
+				select {
+				case buf := <-in:
+					add(buf)
+				default:
+					route.retryFlush(metrics, buffer)
+					return
+				}
+			}
 		}
 	}
-	route.wg.Done()
 }
 
 func (route *GrafanaNet) retryFlush(metrics []*schema.MetricData, buffer *bytes.Buffer) []*schema.MetricData {
@@ -459,7 +475,7 @@ func (route *GrafanaNet) Shutdown() error {
 	//conf := route.config.Load().(Config)
 
 	// trigger all of our queues to be flushed to the tsdb-gw
-	route.shutdown <- struct{}{}
+	close(route.shutdown)
 
 	// wait for all tsdb-gw writes to complete.
 	route.wg.Wait()
